@@ -147,6 +147,8 @@ def _ranged_domain():
                         return Ranged(None)
                     lo, hi = (None, o) if last in ('minimum', 'fmin') else (o, None)
                     return self._clip(x, lo, hi, kwargs.get('out'))
+                if (last in ('nonzero', 'flatnonzero') or (last == 'where' and len(args) == 1)) and isinstance(a0, MaskV):
+                    return a0           # the positions where the mask holds: indexing with them is indexing with the mask
                 if last in ('putmask', 'place') and len(args) == 3 and isinstance(a0, Ranged):
                     # in place: a[mask] = value
                     self.store_subscript(a0, args[1], args[2], node)
@@ -761,8 +763,10 @@ def check(run, db, tier):
     run.rule('C16.bin', "bindown reduces the factor axes with mean/sum; tile scales by 1/prod(factor) ('sum') or 1 ('avg'); the two views are transposes")
     # binning / tiling and the Bayer routines decided on values first (small concrete arrays of symbolic samples): every output sample
     # is a rational-linear form in the input samples.  The readings of the code below defer to that where they cannot read the organisation.
-    from .c16values import bin_value_rules, bayer_value_rules
+    from .c16values import bin_value_rules, bayer_value_rules, wb_value_rules, expose_shape_value_rules
+    run.group(expose_shape_value_rules, run, db)
     decided = {'bin': run.group(bin_value_rules, run, db), 'bayer': run.group(bayer_value_rules, run, db)}
+    run.group(wb_value_rules, run, db)
 
     def reading(fn, key):
         def rule(run, db):
